@@ -355,3 +355,79 @@ def rel_c15(cl, tl, rel, ra, rb):
         fb = (rb["kind"], repr(rb["val"]), tuple(rb["errs"]), rb["off"])
         return ("viol", "with table: %r  general path: %r" % (fa, fb) if fa != fb else "results differ in bookkeeping fields")
     return None
+
+
+# ----------------------------------------------------------------------------- C08: the iterative twin
+
+def _strip(e):
+    """drop action / label wrappers (they do not influence matching)"""
+    while e[0] in ("act", "lab"):
+        e = e[3]
+    return e
+
+
+def twins_c08(cl, c):
+    """For direct left-recursive leader rules  A <- A a1 / ... / A an / b1 / ... / bm  build the grammar in which
+    A <- (b1/.../bm) (a1/.../an)*  (no left recursion, plain template) — it must match the same prefix."""
+    from . import casetree
+    if not c["l"] or c["maxExpr"] != 0:
+        return []
+    for w in (" andc ", " notc ", " stc ", " err ", " panic ", " thr ", " rec "):
+        if w in cl:
+            return []
+    try:
+        head, rules, tail = casetree.split_case(cl)
+    except Exception:
+        return []
+    nid = [casetree.max_id(rules) + 1]
+
+    def fresh():
+        nid[0] += 1
+        return str(nid[0])
+    changed = False
+    new_rules = []
+    for name, disp, leader, lr, e in rules:
+        if lr == "1" and leader != "1":
+            return []          # indirect cycle member: not the direct form
+        if lr != "1":
+            new_rules.append([name, disp, "0", "0", e])
+            continue
+        body = _strip(e)
+        if body[0] != "ch":
+            return []
+        lralts, base = [], []
+        for alt in body[4]:
+            a = _strip(alt)
+            first = _strip(a[2][0]) if a[0] == "seq" and a[2] else None
+            if first is not None and first[0] == "ref" and first[2] == name:
+                if base:
+                    return []          # a non-recursive alternative before a recursive one: not the stated form
+                rest = a[2][1:]
+                if not rest:
+                    return []
+                lralts.append(["seq", fresh(), rest])
+            else:
+                base.append(alt)
+        if not lralts or not base:
+            return []
+        tw = ["seq", fresh(), [["ch", fresh(), "1", "1", base], ["star", fresh(), ["ch", fresh(), "1", "2", lralts]]]]
+        new_rules.append([name, disp, "0", "0", tw])
+        changed = True
+    if not changed:
+        return []
+    h2 = list(head)
+    h2[4] = "0"         # plain (non left-recursion) template
+    return [(twin_id(casetree.join_case(h2, new_rules, tail), 1), "iterative-twin")]
+
+
+def rel_c08(cl, tl, rel, ra, rb):
+    try:
+        core.parse_case_head(cl)["input"].decode("utf-8")
+    except UnicodeDecodeError:
+        return None     # 'invalid encoding' errors of a dropped growth attempt are (by C08) not retained: success is not comparable
+    sa, sb = (ra["kind"] == "ret" and not ra["errs"]), (rb["kind"] == "ret" and not rb["errs"])
+    if sa != sb:
+        return ("viol", "left-recursive parser %s, its iteration %s" % ("matches" if sa else "fails", "matches" if sb else "fails"))
+    if sa and ra["off"] != rb["off"]:
+        return ("viol", "left-recursive parser consumes %d bytes, its iteration %d" % (ra["off"], rb["off"]))
+    return None
